@@ -13,7 +13,7 @@ from vlib import gen, interpose, nx, solve
 from vlib.catalogue import EXACT_BC_TYPES, TYPES, box_points, box_size
 from vlib.props.solverlevel import cfg_tag, problem_tags
 from vlib.ref import brute_force, ref_fixpoint, shr_box_size
-from vlib.run import EngineError, Verdict, engine
+from vlib.run import BudgetExceeded, EngineError, Verdict, engine
 
 P = nx.P
 
@@ -445,8 +445,8 @@ def check_c17_mp(case, tags):
             else:
                 engine(lambda: list(ms.solve()))
             total = engine(ms.get_statistics)
-    except EngineError as e:
-        return Verdict(True, "", False, tags + ["aborted:" + e.bucket])
+    except (EngineError, BudgetExceeded) as e:
+        return Verdict(True, "", False, tags + ["aborted:" + getattr(e, "bucket", "budget")])
     except BaseException as e:
         if type(e).__name__ != "FakeDeadlock":
             raise
